@@ -385,11 +385,9 @@ func checkDaemonPaths(p *Prog, r *Report, rc *rootedChecker) {
 			r.OK(rule, funcKey(sf)+" store Module.Path (constant)", p.Pos(st.Pos()), "")
 			continue
 		}
-		nilEdge := func(v ssa.Value) bool {
-			b, ok := v.(*ssa.BinOp)
-			return ok && b.Op == token.EQL && ((b.X == modParam && isNilConst(b.Y)) || (b.Y == modParam && isNilConst(b.X)))
-		}
-		ok := sf == fn && modParam != nil && HasFact(st, true, nilEdge)
+		// module == nil for a *Module parameter: of this function, or (inherited through the
+		// call sites of a private helper) of the function that builds the implicit module there
+		ok := modParam != nil && HasFact(st, true, isModuleParamNil)
 		r.Cond(ok, rule, funcKey(sf)+" store Module.Path (peer path)", p.Pos(st.Pos()), "a module path taken from the peer is allowed only for the implicit module (module == nil, command mode)")
 	}
 	_ = fmt.Sprint
@@ -558,6 +556,29 @@ func (cc *cleanChecker) helperResultClean(c *ssa.Call, idx int) bool {
 		}
 	}
 	return n > 0
+}
+
+// isModuleParamNil: v is `m == nil` for a parameter m of type *rsyncd.Module.
+func isModuleParamNil(v ssa.Value) bool {
+	b, ok := v.(*ssa.BinOp)
+	if !ok || b.Op != token.EQL {
+		return false
+	}
+	var x ssa.Value
+	switch {
+	case isNilConst(b.Y):
+		x = b.X
+	case isNilConst(b.X):
+		x = b.Y
+	default:
+		return false
+	}
+	pp, ok := x.(*ssa.Parameter)
+	if !ok {
+		return false
+	}
+	n := namedOf(pp.Type())
+	return n != nil && n.Obj().Name() == "Module" && n.Obj().Pkg() != nil && n.Obj().Pkg().Path() == pkgRsyncd
 }
 
 func checkCleanNames(p *Prog, r *Report, g *ModGraph) {
